@@ -16,7 +16,7 @@ from pyrtma.header import MessageHeader, TimeCodeMessageHeader
 import pyrtma
 import pyrtma.message as _pm
 from pyrtma.message import Message
-from pyrtma.message_base import RTMAJSONEncoder
+from pyrtma.message_base import MessageBase, RTMAJSONEncoder
 from pyrtma.message_data import MessageData
 
 from vlib import msgs
@@ -33,8 +33,14 @@ RULE = (
     "the whole history, header fields changed and msg.data replaced before the last conversion - each result checked against "
     "the object's current bytes - arrays in a drawn form: whole array, element by element, or slice by slice, falling back to elements when the "
     "whole/slice form is refused - with an in-domain value (extremes, -0.0, NaN, denormals, empty and maximum-length strings, control characters, "
-    "quotes, all-0x00/0xFF byte arrays, full-length arrays); five independent campaigns check one route each: "
-    "from_buffer_copy + copy (equal, storage-disjoint in both directions), from_dict(to_dict()), from_json(to_json(minify in "
+    "quotes, all-0x00/0xFF byte arrays, full-length arrays; a quarter of the string values - and some byte arrays, as text - are "
+    "joined from pieces that LOOK like JSON / Python / YAML syntax: lists of numbers with padding blanks, tabs or line breaks inside "
+    "the brackets and after the commas ('[ 1, 2, 3 ]', '[ 7 ]', '[ -1.5e+3,  2 ]', '{ 1.5,\\t12 }'), brackets, braces, quotes, "
+    "backslashes and spelled-out escapes (backslash + n as two characters, \\u0041), colons, commas, NaN / Infinity / null / true, "
+    "runs of blanks, leading and trailing blanks; counted as special:syntax-like / special:padded-number-list); five independent campaigns check one route each: "
+    "from_buffer_copy + copy (equal, storage-disjoint in both directions; copy called through the instance's own class AND "
+    "through every base class it inherits the classmethod from - MessageData / MessageBase for definitions, MessageHeader / "
+    "MessageBase for a timecode header: the copy must be of the instance's class and equal to it), from_dict(to_dict()), from_json(to_json(minify in "
     "{F,T})), dict/JSON with strings spelled as character lists, and Message(header, data) through Message.to_json/"
     "from_json/to_dict/copy with either header layout (MessageHeader or TimeCodeMessageHeader with utc fields over uint32; the "
     "header alone also goes through to_dict/from_dict/to_json/from_json/copy; the same header class must come back) and every header field drawn independently over its domain (num_data_bytes in {0, type size, "
@@ -44,7 +50,7 @@ RULE = (
     "round trips, foreign versions incl. the previous class's hash) in between; after each registration the round trip and "
     "the refusal are judged against the class registered last; the registry entry is restored after every case. "
     "Non-trivial = an instance with >=1 non-default field among {NaN, -0.0, extreme, denormal, control char/quote, "
-    "max-length string, all-0xFF bytes, field inside a struct-array element}; distinct = (route, class source, set of "
+    "syntax-like text, padded number list in a string, max-length string, all-0xFF bytes, field inside a struct-array element}; distinct = (route, class source, set of "
     "(special class, field kind))."
 )
 ASSUME = [
@@ -61,6 +67,12 @@ ASSUME = [
     "'refused' for a foreign version hash means any exception from Message.from_json",
     "storage disjointness is checked by overwriting every byte of one side through ctypes.memmove and comparing the other",
     "header plus data is checked with both header layouts (MessageHeader, TimeCodeMessageHeader) and each header alone",
+    "copy is a classmethod annotated copy(cls: Type[MB], m: MB) -> MB and documented as 'Generate a copy of a message "
+    "structure': any class of which m is an instance is a legal receiver, and what comes back has to be a copy OF m (m's class, "
+    "m's bytes), like Message.copy since repair 1799472. A receiver class of which m is NOT an instance (MDF_A.copy(mdf_b), "
+    "copy(bytes)) is a reinterpreting cast, outside the property, and not generated",
+    "the content of a String field is opaque: text that looks like JSON / Python / YAML syntax is in the domain like any other "
+    "ASCII text ('every field value in its domain ... control characters and quotes in strings')",
 ]
 
 ROUTES = ["buffer-copy", "dict", "json", "charlist", "message"]
@@ -132,6 +144,28 @@ def _disjoint(route: str, what: str, a, b, trace: dict):
             raise Violation(f"{route}/copy-shares-storage", f"{what}: writing the {name} changed the other object", trace)
 
 
+def _copy_bases(cls: type) -> list:
+    """The proper base classes of cls through which `copy` can be called with an instance of cls (the classmethod's
+    signature is copy(cls: Type[MB], m: MB) -> MB, and an instance of a subclass is an instance of the base):
+    MessageHeader for a timecode header, MessageData for every message definition, MessageBase for everything."""
+    return [k for k in cls.__mro__[1:] if isinstance(k, type) and issubclass(k, MessageBase)]
+
+
+def _copy_through_bases(route: str, trace: dict, res: Result, cls: type, obj, want: bytes):
+    """A copy made through a base class of the instance's class is a copy of the instance all the same: same class, equal
+    bytes (MessageBase.__eq__ compares exactly that), no shared storage."""
+    for base in _copy_bases(cls):
+        c = _call(route, f"{base.__name__}.copy(instance of a subclass)", trace, base.copy, obj)
+        what = f"{base.__name__}.copy(<{cls.__name__} instance>)"
+        if type(c) is not cls or bytes(c) != want:
+            kind = "header" if issubclass(cls, MessageHeader) else "data"
+            raise Violation(f"{route}/copy-through-base-class-differs/{kind}",
+                            f"{what}: the copy is a {type(c).__name__} of {ctypes.sizeof(c)} bytes, the source a {cls.__name__} of "
+                            f"{len(want)} bytes; copy == source is {c == obj}", trace)
+        _disjoint(route, what, obj, c, trace)
+        res.count(f"{route}:copy-through-base:{base.__name__}")
+
+
 def _charlist(cls: type, d: dict) -> int:
     """Rewrite (in place) every String field of dict d as a list of characters; returns how many."""
     n = 0
@@ -170,10 +204,17 @@ def _specials(fi: FI, v) -> set:
                 out.add("ctrl")
             if k == "str" and len(x) == fi.n - 1:
                 out.add("maxlen")
+            if k == "str" and msgs.looks_like_syntax(x):
+                out.add("syntax-like")
+                if _PADDED_LIST.search(x):
+                    out.add("padded-number-list")
     if k == "bytes" and vals and all(x == 255 for x in vals if isinstance(x, int)):
         out.add("allff")
     return out
 
+
+# text content that looks like a list of numbers written with padding white space: "[ 1, 2 ]", "{ 7 }", "[\n  1,\n  2\n]"
+_PADDED_LIST = re.compile(r"[\[{(]\s+[-0-9NI][-+.0-9eEa-zA-Z]*(,\s*[-0-9NI][-+.0-9eEa-zA-Z]*)*\s+[\]})]")
 
 ARRAY_KINDS = ("iarr", "farr", "bytes")
 
@@ -429,6 +470,7 @@ def check_route(trace: dict, res: Result, cls: type, m, marks: set, st_: dict, f
         c = _call(route, "copy(m)", trace, cls.copy, m)
         _same(route, f"{name}.copy(m)", cls, c, b, trace)
         _disjoint(route, f"{name}.copy(m)", m, c, trace)
+        _copy_through_bases(route, trace, res, cls, m, b)
     elif route == "dict":
         d = _call(route, "to_dict()", trace, m.to_dict)
         m2 = _call(route, "from_dict(to_dict())", trace, cls.from_dict, d)
@@ -484,6 +526,7 @@ def check_route(trace: dict, res: Result, cls: type, m, marks: set, st_: dict, f
         hc = _call(route, f"{hname}.copy(h)", trace, hcls.copy, h)
         _same(route, f"{hname}.copy(h)", hcls, hc, hb, trace)
         _disjoint(route, f"{hname}.copy(h)", h, hc, trace)
+        _copy_through_bases(route, trace, res, hcls, h, hb)
         for mini in (False, True):
             s = _call(route, f"Message.to_json(minify={mini})", trace, msg.to_json, minify=mini)
             r = _call(route, f"Message.from_json(version={'hash' if trace['ver'] else 0})", trace, Message.from_json, s)
@@ -565,7 +608,10 @@ def _value(fi: FI):
     if fi.kind == "farr":
         return st.one_of(base, _with_nan(base))
     if fi.kind == "bytes":
-        return st.one_of(base, base, st.just(enc(bytes(fi.n))), st.just(enc(b"\xff" * fi.n)), st.just(enc([255] * fi.n)))
+        # ... and byte arrays that hold TEXT (syntax-like, see msgs.syntax_text) padded with NULs or blanks to the field length
+        text = st.tuples(msgs.syntax_text(fi.n), st.sampled_from([b"\0", b" "])).map(
+            lambda t: enc((t[0].encode("ascii") + t[1] * fi.n)[: fi.n]))
+        return st.one_of(base, base, st.just(enc(bytes(fi.n))), st.just(enc(b"\xff" * fi.n)), st.just(enc([255] * fi.n)), text)
     return base
 
 
@@ -644,7 +690,8 @@ def _history(draw, path, fi: FI):
         out.append(step)
     if fi.kind == "str" and n > 1 and draw(st.booleans()):
         # make the first value the longest one
-        out[0]["v"] = enc(draw(st.text(alphabet="abcxyz019 ", min_size=fi.n - 1, max_size=fi.n - 1)))
+        out[0]["v"] = enc(draw(st.one_of(st.text(alphabet="abcxyz019 ", min_size=fi.n - 1, max_size=fi.n - 1),
+                                         msgs.syntax_text(fi.n - 1, fi.n - 1))))  # ... also one that looks like JSON / YAML syntax
     return out
 
 
